@@ -176,7 +176,13 @@ def validate_trace(work, tag, module, cfg_name, trace_path, timeout=1800, extra_
     subst = {"TraceFile": '"%s"' % trace_path}
     subst.update(extra_subst or {})
     cfg = read_cfg(cfg_name, subst)
-    out = tlc(work, "tv-" + tag, module, cfg, timeout=timeout, heap="2g", workers=1)
+    # TLC holds the whole deserialised trace in memory: small heaps for the small traces of the quick tier (several validations
+    # run side by side), more for the long traces of the thorough tier
+    try:
+        big = os.path.getsize(trace_path) > 12_000_000
+    except OSError:
+        big = False
+    out = tlc(work, "tv-" + tag, module, cfg, timeout=timeout, heap="4g" if big else "2g", workers=1)
     res = {"accepted": False, "viol": set(), "nt": set(), "drift": set(), "known": set(), "n": 0, "out": out}
     for line in out.splitlines():
         m = REP.match(line.strip())
